@@ -50,10 +50,33 @@ pub fn generate(prop: &str, seed: u64, run: u64, _thorough: bool) -> Scenario {
     big.push_str("  condition: A\ntrue_positives: []\ntrue_negatives: []\n");
     let big_idx = texts.len();
     texts.push(big);
+    // every second store also has a deeply nested file (20..63 mappings deep, the bound the
+    // loader allows is 64): several threads are deep inside the recursive loader at the same time
+    let deep_idx = if rr.chance(1, 2) {
+        let depth = *rr.pick(&[20usize, 33, 33, 40, 50, 63]);
+        let mut deep = String::from("detection:\n  A:\n");
+        for l in 0..depth {
+            deep.push_str(&format!("{}n{}:\n", "  ".repeat(l + 2), l % 3));
+        }
+        deep.push_str(&format!("{}leaf:\n", "  ".repeat(depth + 2)));
+        for i in 0..40 {
+            deep.push_str(&format!("{}- '*{}v{}*'\n", "  ".repeat(depth + 2), tag, i));
+        }
+        deep.push_str("  condition: A\ntrue_positives: []\ntrue_negatives: []\n");
+        texts.push(deep);
+        Some(texts.len() - 1)
+    } else {
+        None
+    };
     let nt = *tr.pick(&[2usize, 2, 3, 4]);
     let mut threads = vec![];
     for t in 0..nt {
         let mut plan = vec![];
+        if let Some(di) = deep_idx {
+            if t < 2 || tr.chance(1, 2) {
+                plan.push(di);
+            }
+        }
         // everybody starts with the base file (the same not-yet-seen texts at the same moment),
         // then some of the other files, and one thread in two ends with the large file
         plan.push(0);
